@@ -888,6 +888,10 @@ def rule(prog, res, scope=None, rule_name='index-site'):
                 per['G4p'] = per.get('G4p', 0) + 1
                 continue
         j = [e for e in inv if e['function'] == f.qname and e['site'] == key]
+        broken = invariant_broken(prog, j[0]) if j else None
+        if j and broken:
+            res.viol(rule_name, inst, f.loc(s.nid), '%s; the invariant that justifies this site (values held = product of the dimensions) is broken: %s' % (detail, broken), function=f.sig, expr=key)
+            continue
         if j and invariant_holds(prog, j[0]):
             res.ok(rule_name, inst, f.loc(s.nid), 'justified (spec/invariants.json): ' + j[0]['reason'], function=f.sig, expr=key + '@%d' % s.nid, nontrivial=False)
             per['justified'] = per.get('justified', 0) + 1
@@ -965,6 +969,29 @@ def forwarded_ok(prog, g, dim_param, c0, facts, cn, rec):
     return True, '%s: forwarded dimension list, callers establish size >= %d' % (g.loc(cn['id']), need)
 
 
+_broken_cache = {}
+
+
+def invariant_broken(prog, entry):
+    """positive evidence against an invariants.json entry: for count-equals-product, a typed setter that modifies the
+    parameter before (or without) its consistency test leaves, after a refused call, dimensions and values that disagree"""
+    chk = entry.get('check') or {}
+    if chk.get('kind') != 'count-equals-product':
+        return None
+    key = id(prog)
+    if key not in _broken_cache:
+        import p_c09
+        from result import Result as _R, VIOL
+        tmp = _R('x', 'quick', '')
+        try:
+            p_c09.validate_first_rule(prog, tmp)
+            v = [o for o in tmp.obs if o['verdict'] == VIOL]
+            _broken_cache[key] = ('%s: %s' % (v[0]['instance'], v[0]['detail'][:220])) if v else None
+        except Exception:
+            _broken_cache[key] = None
+    return _broken_cache[key]
+
+
 def invariant_holds(prog, entry):
     """mechanical part of an invariants.json entry"""
     chk = entry.get('check')
@@ -1006,7 +1033,10 @@ def invariant_holds(prog, entry):
                 if h.implicit:
                     continue
                 if h.qname not in okf:
-                    return False
+                    # a helper of the class that only the setters / the reader call is part of them
+                    cs = [g_ for g_, _cn in prog.callers_of(h.usr)]
+                    if not (h.cls == PRM and cs and all(g_.qname in okf for g_ in cs)):
+                        return False
         return True
     return True
 
